@@ -215,6 +215,7 @@ def explore_c15(rng, tier, res, deep=False):
         res.sample({"query": q})
     fresh_env_invalid(rng, tier, res, g)
     overlapping_applications(rng, tier, res)
+    long_invalid_history(rng, tier, res)
 
 
 def overlapping_applications(rng, tier, res):
@@ -259,6 +260,71 @@ def overlapping_applications(rng, tier, res):
 ALMOST_VALID = ["$[?@.a == (@.b)]", "$[?(@.a) == 1]", "$[?(@.a) < (@.b)]", "$[?1 == (@.a)]", "$[?@.a == 1 && (@.b) != 2]", "$[?!@.a == 1]", "$[?@.a == !@.b]",
                 "$[?@.a >= (1)]", "$[?(@.a || @.b) == true]", "$[?@.a == 1 == 1]", "$[?@.a != (@.*)]", "$[?@.* == 1]", "$[?count(@.a)]", "$[?length(@.*) == 1]",
                 "$[?nope(@)]", "$[?true]", "$[?@.a == 01]", "$[9007199254740992]", "$[", "$.a b", "$ ", " $", "$[?@.a &&]", "$[?match(@.a)]", "$['\\x']", "$[1:2:3:4]"]
+
+
+def long_invalid_history(rng, tier, res):
+    """The agreement of the entry points does not wear out: ONE long-lived environment is handed many hundreds of invalid
+    texts — errors raised deep inside parentheses, function arguments and nested filters, where a parser is in the
+    middle of something — through its entry points in rotation (and the module-level functions see a share of them);
+    every outcome class must be the one a FRESH environment's compile() gives, and after every block valid filter
+    queries must still evaluate, identically through every entry point."""
+    import jsonpath_rfc9535 as jp
+
+    inner = ["@ >", "@.a ==", "nope(@)", "count(1)", "length(@.*)", "@.a == 01", "@.a && ", "(@.a", "@.a))", "value(@.a, @.b)", "@.a == (1)", "!!@.a", "@[", "@['a'", "1", "@.a == @.*",
+             "match(@.a)", "@.a == 'x", "length(@.a,)", "@..", "@.a ==== 1"]
+    wraps = ["$[?({})]", "$[?!({})]", "$[?@.b && ({})]", "$[?count(@[?{}]) > 0]", "$[?length(value(@[?({})])) == 1]", "$.a[?value(@.c[?({})]) == 1]", "$[?((({})))]",
+             "$[?match(@.a, value(@[?{}]))]", "$[?@[?@[?({})]]]", "$[?(@.a || ({})) && @.b]"]
+    valid = ["$[?(@.a)]", "$[?count(@.*) > 0]", "$[?((@.a == 1) || !(@.b))]", "$[?length(@.a) >= 1]", "$[?@[?(@ > 0)]]", "$.a", "$[?match(@.s, 'a.*')]"]
+    doc = [{"a": 1, "b": 1, "s": "ab"}, {"a": [1, 2], "s": "b"}, {"b": [1]}, [1, 0]]
+
+    def cls(thunk):
+        try:
+            thunk()
+            return "ok"
+        except jp.JSONPathError as exc:
+            return type(exc).__name__
+        except Exception as exc:  # noqa: BLE001
+            return "PY:" + type(exc).__name__
+
+    e = jp.JSONPathEnvironment()
+    entry = [("env.compile", lambda q: e.compile(q)), ("env.find", lambda q: e.find(q, doc)), ("env.finditer", lambda q: list(e.finditer(q, doc))),
+             ("env.find_one", lambda q: e.find_one(q, doc)), ("module.find", lambda q: jp.find(q, doc)), ("module.compile", lambda q: jp.compile(q)),
+             ("module.finditer", lambda q: list(jp.finditer(q, doc))), ("module.find_one", lambda q: jp.find_one(q, doc))]
+    total = 1200 if tier != "thorough" else 12000
+    texts = [w.format(i) for w in wraps for i in inner]
+    rng.shuffle(texts)
+    count = 0
+    for k in range(total):
+        q = texts[k % len(texts)]
+        want = cls(lambda: jp.JSONPathEnvironment().compile(q))
+        nm, fn = entry[k % len(entry)]
+        got = cls(lambda: fn(q))
+        res.evaluations += 1
+        count += 1
+        if got != want:
+            res.violations.append({"property": "C15", "query": q, "document": doc, "observed": {nm: got}, "expected": want,
+                                   "history": f"one environment (and the module-level functions) after {count} texts, nearly all invalid, each rejected inside parentheses / arguments / nested filters",
+                                   "what": "after a long history of rejected texts an entry point no longer gives the outcome class a fresh environment's compile() gives"})
+            return
+        if k % 60 == 59:
+            for v in valid:
+                fresh = jp.JSONPathEnvironment()
+                ref = cls(lambda: fresh.find(v, doc))
+                ref_nodes = [(n.location, n.value) for n in fresh.find(v, doc)] if ref == "ok" else None
+                for nm2, fn2 in (("env.find", lambda q: e.find(q, doc)), ("module.find", lambda q: jp.find(q, doc)), ("env.compile().find", lambda q: e.compile(q).find(doc)),
+                                 ("module.finditer", lambda q: list(jp.finditer(q, doc)))):
+                    try:
+                        got_nodes = [(n.location, n.value) for n in fn2(v)]
+                        g2 = "ok"
+                    except jp.JSONPathError as exc:
+                        g2, got_nodes = type(exc).__name__, None
+                    res.evaluations += 1
+                    if g2 != ref or got_nodes != ref_nodes:
+                        res.violations.append({"property": "C15", "query": v, "document": doc, "observed": {nm2: g2}, "expected": ref,
+                                               "history": f"one environment (and the module-level functions) after {count} texts, nearly all invalid",
+                                               "what": "after a long history of rejected texts a valid query no longer evaluates through every entry point as on a fresh environment"})
+                        return
+    res.count("long-invalid-history", count)
 
 
 def fresh_env_invalid(rng, tier, res, g):
@@ -555,6 +621,7 @@ def explore_c14(rng, tier, res, deep=False):
         res.nontrivial.add(tuple(str(h) for h in hist))
         res.sample({"history": [str(h)[:80] for h in hist[:8]]})
         pending.append(("hist\t(ops " + " ".join(ops_wire) + ")", outs_real, hist))
+    shared_substructure(rng, tier, res)
     subclass_alongside(rng, tier, res)
     typed_call_twins(rng, tier, res)
     reregister_between_applications(rng, tier, res)
@@ -571,6 +638,56 @@ def explore_c14(rng, tier, res, deep=False):
             idx = next((i for i in range(min(len(a), len(b))) if a[i] != b[i]), min(len(a), len(b)))
             res.mismatches.append({"op": "hist", "step": idx, "history": [str(h)[:120] for h in hist[: idx + 1]][-6:],
                                    "model": a[idx][:200] if idx < len(a) else None, "real": b[idx][:200] if idx < len(b) else None})
+
+
+def shared_substructure(rng, tier, res):
+    """Equal data is equal data however it is held in memory: values in which one container OBJECT occurs at several
+    places (the same row twice, one dict under two members, one list at two depths, one empty list everywhere) against
+    their deep copies, in which every occurrence is an object of its own — same nodelist, same outcome; also after the
+    shared value has been applied first (and the other way round), both modes."""
+    import copy
+
+    import jsonpath_rfc9535 as jp
+
+    def build():
+        d = {"a": 1, "tags": ["x"]}
+        row = [1, {"a": 2}]
+        e = []
+        o = {}
+        inner = {"a": {"a": [0]}}
+        return [
+            {"left": d, "right": d},
+            [row, row],
+            {"items": [d, {"a": 3}, d], "first": d},
+            [e, [e], {"k": e}, e],
+            {"x": o, "y": {"z": o}, "l": [o, o]},
+            {"p": inner, "q": {"r": inner["a"]}, "s": [inner["a"]["a"]]},
+            [[row], row, {"a": row}],
+        ]
+
+    queries = ["$..a", "$..[0]", "$..*", "$.items[?count(@..a) == 1]", "$[*][*]", "$..[?@.a]", "$[?@ == $[0]]", "$..tags[0]", "$[?count(@..*) >= 0]", "$..[?@..a]", "$.*", "$..[-1]",
+               "$[?@.a == $.first.a]", "$..['a','tags']"]
+    for ndflag in (False, True):
+        env = real.make_env(dict(real.DEFAULT_ENVDESC, nd=ndflag))
+        for order in ("shared-first", "copy-first"):
+            for q in queries:
+                c = env.compile(q)
+                for shared in build():
+                    plain = json.loads(json.dumps(shared))
+                    res.evaluations += 1
+                    seq = [("shared", shared), ("copy", plain)] if order == "shared-first" else [("copy", plain), ("shared", shared)]
+                    outs = {}
+                    for label, v in seq:
+                        r = outcome(lambda: enc_list(c.find(v)))
+                        outs[label] = sorted(r.split(" ")) if ndflag and not r.startswith("err") else r
+                    res.nontrivial.add(("shared-substructure", ndflag, order, q, json.dumps(plain, sort_keys=True)))
+                    if outs["shared"] != outs["copy"]:
+                        res.violations.append({"property": "C14", "query": q, "document": plain, "env": {"nondeterministic": ndflag},
+                                               "observed": str(outs["shared"])[:300], "expected": str(outs["copy"])[:300],
+                                               "history": ["the value is built so that one container object occurs at several places (e.g. row = [...]; value = [row, row]); "
+                                                           "the expected outcome is that of its deep copy (json round trip), applied " + ("after" if order == "shared-first" else "before") + " it with the same compiled query"],
+                                               "what": "a compiled query gives another outcome on a value that shares container objects than on equal data that does not"})
+    res.count("shared-substructure")
 
 
 def typed_call_twins(rng, tier, res):
@@ -1011,8 +1128,61 @@ def nd_iterators(rng, tier, res):
     res.count("nd-iterator-rounds", 8 * 5 * 4)
 
 
+def nd_threads(res):
+    """A nondeterministic environment is an environment: built on the main thread and used from OTHER threads (compile +
+    evaluate there; an iterator begun here and finished there; several threads at once next to a live iterator of the
+    main thread) it yields a permutation of the deterministic nodelist, never an exception."""
+    import jsonpath_rfc9535 as jp
+
+    nd_cls = type("NdShared", (jp.JSONPathEnvironment,), {"nondeterministic": True})
+    nd_env = nd_cls()
+    det = jp.JSONPathEnvironment()
+    doc = {"a": [1, {"b": 2, "c": [3]}], "d": {"e": 1, "f": {"g": 0, "b": 5}}, "h": 7}
+    qs = ["$.*", "$..*", "$.d[?@ > 0]", "$..[?@.b]", "$.a[*]", "$..b", "$[?@..b]", "$.d.*", "$..[*]"]
+    want = {q: sorted(enc_list(det.find(q, doc)).split(" ")) for q in qs}
+    problems = []
+
+    def judge(q, thunk, how):
+        try:
+            got = sorted(enc_list(thunk()).split(" "))
+        except Exception as ex:  # noqa: BLE001
+            problems.append((q, how, repr(ex)[:200]))
+            return
+        if got != want[q]:
+            problems.append((q, how, "not a permutation of the deterministic nodelist"))
+
+    def in_thread(fn):
+        t = threading.Thread(target=fn)
+        t.start()
+        t.join()
+
+    for q in qs:
+        res.evaluations += 3
+        in_thread(lambda: judge(q, lambda: nd_env.find(q, doc), "compile + evaluate in a worker thread (environment built on the main thread)"))
+        c = nd_env.compile(q)
+        in_thread(lambda: judge(q, lambda: c.find(doc), "query compiled on the main thread, applied in a worker thread"))
+        it = iter(c.finditer(doc))
+        first = next(it, None)
+        rest = []
+        in_thread(lambda: judge(q, lambda: ([first] if first is not None else []) + list(it), "iterator begun on the main thread, finished in a worker thread"))
+    live = iter(nd_env.finditer("$..*", doc))
+    next(live)
+    ts = [threading.Thread(target=lambda q=q: judge(q, lambda: nd_env.find(q, doc), "several worker threads at once, next to a live iterator of the main thread")) for q in qs]
+    for t in ts:
+        t.start()
+    for t in ts:
+        t.join()
+    judge("$..*", lambda: list(nd_env.finditer("$..*", doc)), "main thread afterwards")
+    res.count("nd-thread-cases", 3 * len(qs) + len(qs) + 1)
+    for q, how, what in problems[:3]:
+        res.violations.append({"property": "C16", "query": q, "document": doc, "env": {"nondeterministic": True}, "observed": what, "history": how,
+                               "expected": "a permutation of the deterministic nodelist", "what": "a nondeterministic environment used from another thread"})
+
+
 def thread_stress(rng, tier, res):
     import jsonpath_rfc9535 as jp
+
+    nd_threads(res)
 
     env = jp.JSONPathEnvironment()
     docs = [doc_with_all_kinds(rng, 3) for _ in range(4)]
